@@ -813,3 +813,12 @@ impl CpcSketch {
         determine_correct_offset(lg_k, num_coupons)
     }
 }
+
+#[cfg(feature = "verif-hooks")]
+impl CpcSketch {
+    /// Verification hook: `determine_pseudo_phase(lg_k, num_coupons)`, the index of the coding
+    /// table / column permutation used by the serializer.
+    pub fn verif_determine_pseudo_phase(lg_k: u8, num_coupons: u32) -> u8 {
+        crate::cpc::compression::verif_determine_pseudo_phase(lg_k, num_coupons)
+    }
+}
